@@ -180,3 +180,30 @@ def lookup_two_sources(O):
             "into_data_row resp. the driver, set_outputs and extract_output_values")
 def glue_stores_nothing(O):
     dri.glue_keeps_state(O, rep())
+
+
+def _virtual_answer_scenarios():
+    """a driver that (wrongly) answers for the declared signal itself: every row is an error item, the declared value is never
+    replaced by the driver's number"""
+    from ..replay import Scenario
+    S = [("in", "A", 8, 0), ("out", "B", 8)]
+    return [Scenario("A B V\ndeclare V = B + 1;\n0 X X\n1 X X\n", S, layout=["B", "V"], default_answer=[3, 99], stop_on_err=False,
+                     expect={"items": ["err", "err"]}, note="the driver's answer contains an entry for the declared signal V"),
+            Scenario("A B V\ndeclare V = B + 1;\n0 X X\n", S, layout=["V", "B"], default_answer=[99, 3], stop_on_err=False,
+                     expect={"items": ["err"]}, note="entry for the declared signal first")]
+
+
+@obligation("C14/declared-signals-are-computed", desc="build_output_indices (2 expected, 2 answered): an expected signal of kind Virtual "
+            "gets the Virtual index whatever the driver's answer contains - its value is always the declared expression")
+def declared_are_computed(O):
+    from . import C03
+    R = rep()
+    R2 = dri.Rep(dict(R.facts), _virtual_answer_scenarios() + list(R.battery), lambda obs, sc: (B.literal_judge(obs, sc) if sc.expect.get("items") else R.judge(obs, sc)))
+    C03._output_positions(dri.WithRep(O, R2), 2, 2)
+
+
+@obligation("C14/static-rows-keep-declared-signals", desc="From<DataRow> for StaticDataRow (<= 2 outputs): expected[i] = "
+            "(outputs[i].signal, outputs[i].expected) for every result entry in order - declared signals included")
+def static_rows_keep_declared(O):
+    from . import C15
+    C15.static_row(dri.WithRep(O, dri.Rep({"family": "static"}, B.static_battery(), B.static_judge)))
